@@ -34,6 +34,18 @@ for pid, fl in [("C01","escape"),("C05","control"),("C07","scope"),("C09","inclu
     PROPS[pid] = evalprop(fl)
     PROPS[pid]["lean_modules"] = [pid]
 
+LEX_TB = COMMON_TB + [
+    "modelled, not verified (validated by the lexer correspondence on every run): Go string slicing/indexing, strings.Index/IndexByte/HasPrefix, utf8.DecodeRuneInString, unicode.IsLetter/IsDigit (tables regenerated from the toolchain by factgen)",
+    "the lexer's tables (single/two-character tokens, keywords, sign-exclusion lists, terminators, token kinds) are regenerated from lex.go by factgen on every run (tie A); the state functions are a hand-written model compared token-by-token with the real lexer (hook VerifLex)",
+]
+PROPS["C03"] = {
+    "lean_modules": ["C03"],
+    "rule": "stream 'segments' (direct oracle): templates assembled from 1-7 segments - text (whitespace runs of every mix, multi-byte runes, invalid UTF-8, NUL, lone delimiter characters and closing delimiters), actions printing a known marker with/without '- ' and ' -' trim markers and inner whitespace, comments containing delimiters and trim-like text - under 8 delimiter families (default, custom action delimiters, custom comment delimiters, multi-byte delimiters); the expected bytes are assembled from the same segments by the rule of the property (text verbatim, trim markers remove the adjacent whitespace run of the text, comments nothing). Non-trivial = more than one segment. stream 'lex': the same sources, plus the general source generator and its mutations, through the lexer model token by token.",
+    "trusted_base": LEX_TB + ["the parser and the evaluator are the real ones for the oracle stream; that text tokens become TextNodes written raw is covered by C01's theorem and correspondence"],
+    "assumptions": ["no extends/import header in the segment stream (leading whitespace next to them is covered by C02's parser oracle)"],
+    "explanation": "Theorems (for every source, every delimiter configuration, every way the scan ends): the lexer's emit/ignore events, read in order, are adjacent ranges starting at 0 and every token value is exactly the source slice of its range (global invariant over all state functions); the trim lengths are exactly the maximal runs of space/tab/CR/LF. Tie: token streams of the real lexer vs the model; direct oracle on rendered output.",
+}
+
 PROPS["C06"] = evalprop("fields", "Stream 'cache': random struct types built with reflect.StructOf (1-4 fields per struct from a small name pool so names clash, exported and unexported fields, embedded structs and embedded struct pointers nested up to 4 deep) - the index-path table of the real buildCache (hook VerifBuildCache) vs the model's buildCache, plus a direct oracle (every path is valid and leads to a field of that name). Stream 'structs' (direct oracle, no model): a value of such a type with a unique value in every leaf and nil / non-nil embedded pointers; for every field name occurring anywhere in the type and a missing one, '.Name' and '.[\"Name\"]' are rendered: an unambiguous exported name must render exactly the value stored where Go's selector rule (shallowest depth, through embedded structs and pointers) reaches and both spellings must agree; unexported and missing names and paths through nil embedded pointers must be errors; Execute must never panic.")
 PROPS["C06"]["lean_modules"] = ["C06"]
 
@@ -119,6 +131,11 @@ MANIFEST_TEXT = {
         "level": "Lean 4 theorems: Runtime.isSet, Arguments.IsSet and the isset built-in with >= 1 argument never produce an error or runtime panic, for every expression, data and fuel; zero values are set, nil values are not; a piped argument is judged by its value. Tie: differential execution over access paths valid/invalid at every depth, direct and piped; constructive oracle.",
         "note": "Exactness (true iff every step exists) is covered by correspondence against the implementation and the oracle, not yet by a theorem against an independent existence spec.",
         "technique": "Lean 4 proof about the evaluator model + differential correspondence + constructive direct oracle",
+    },
+    "C03": {
+        "level": "Lean 4 theorems about the lexer model, for every source, every delimiter configuration and every way the scan ends: the emit and ignore events form a chain of adjacent ranges from offset 0, and each token's value is the verbatim source slice of its range (an invariant proved through all twelve state functions and their loops), so nothing is added, reordered or altered and every byte outside a token was dropped at one of the five ignore sites; left/right trim lengths are exactly the maximal whitespace runs. Tie: real lexer vs model token by token (hook VerifLex, tables regenerated by factgen) on generated and mutated sources under 8 delimiter families; direct oracle on rendered bytes of segment-built templates.",
+        "note": "That the ranges dropped at the five ignore sites are exactly comment / marker / whitespace-run is proved for the run lengths (trim specs) and otherwise shown by the oracle; bounds of ignore ranges (a <= b) are not part of the proved invariant.",
+        "technique": "Lean 4 proof (global invariant over the lexer state machine) + differential correspondence via a build-tagged hook + constructive direct oracle",
     },
     "C06": {
         "level": "Lean 4 theorems: for every struct type (any fields, any nesting of embedded structs, any name clashes) every entry name -> path of the model of buildCache leads through exported embedded structs to an exported field of that name (buildCache_sound, induction on embedding depth and on the field loop), and a struct's own field is never hidden by a promoted one (direct_field_wins); on the evaluator model's resolveIndex: a.b agrees with a[\"b\"] on maps and structs, absent map keys yield nil, present entries and slice elements are returned as stored, out-of-range/negative indexes, missing fields and nil pointers are errors. Tie: the real buildCache (hook) vs the model on random reflect.StructOf types; differential execution of access-heavy programs; a direct oracle comparing '.F' / '.[\"F\"]' on generated struct values with Go's own selector rule.",
